@@ -940,3 +940,78 @@ def r16_translation_offset_in_wide_type(ck, P, rid='C04-R16'):
                     ck.violation(R, f.name, 'offset added to a matrix element', '%s adds the constant %d to an element of the transform matrix in %s: the element may be anywhere in the 16.16 range (a translation of 32767.5 is accepted when the samples lie inside the source), the sum wraps, and the coordinate computed from it addresses memory far outside the image' % (f.name, int(a[1]), x.ty), x.loc())
     if n == 0:
         raise AnalysisBroken('%s: no constant added to a transform matrix element anywhere' % rid)
+
+
+def r_wide_division_numerator(ck, P, rid='C02-R28'):
+    """T-WID: where the library divides in 64 bits it does so because the numerator does not fit in 32 (16.16 positions times sizes, sums
+    of an image width in 16.16 and a start position, ...).  A numerator that is formed in 32 bits and widened afterwards has already
+    wrapped: the 64-bit division is then a belief the code itself contradicts (cast placed after the operation instead of before)."""
+    R = ck.rule(rid, 'no 64-bit division or remainder takes a numerator (through 64-bit additions of further terms) that is a 32-bit sum, difference, product or shift of non-constant operands widened afterwards: pad_repeat_get_scanline_bounds forms max_vx - vx + unit_x - 1 from an image width in 16.16 and a start position, which passes 2^31 for a source of 16384 pixels and more, and the scaled fast paths then take the rest of the row for padding while the general path samples it', floor=50)
+    def narrow(f, o, d=0):
+        y = f.v(o) if o[0] == 'v' else None
+        if y is None or d > 8:
+            return None
+        if y.op == 'sext' and y.ty == 'i64':
+            z = f.v(y.a[0])
+            # peel additions of constants (n - 1 alone is not a sum that outgrows its type)
+            for _ in range(4):
+                if z is not None and z.op in ('add', 'sub') and z.ty == 'i32' and sum(1 for a in z.a if a[0] == 'c') == 1:
+                    z = f.v([a for a in z.a if a[0] != 'c'][0])
+                else:
+                    break
+            if z is not None and z.op in ('add', 'sub', 'mul', 'shl') and z.ty == 'i32' and not any(a[0] == 'c' for a in z.a):
+                return z
+            return None
+        if y.op in ('add', 'sub') and y.ty == 'i64':
+            for a in y.a:
+                r = narrow(f, a, d + 1)
+                if r is not None:
+                    return r
+        return None
+    n = 0
+    for f in P.functions():
+        for x in f.insts():
+            if x.op not in ('sdiv', 'srem', 'udiv', 'urem') or x.ty != 'i64':
+                continue
+            n += 1; ck.saw(f)
+            z = narrow(f, x.a[0])
+            where = '%s: %s at %s' % (f.name, x.op, x.loc())
+            if z is None:
+                ck.ok(R, where, 'numerator formed in 64 bits')
+            else:
+                ck.violation(R, f.name, 'numerator of the 64-bit %s' % x.op, '%s divides in 64 bits (%s) a numerator whose %s was computed in 32 bits (%s) and widened afterwards: the sum wraps before the cast, the quotient is that of the wrapped value, and what is derived from it (padding widths, sample positions) is wrong for large images or positions while small ones behave' % (f.name, x.loc(), z.op, z.loc()), z.loc())
+    if n == 0:
+        raise AnalysisBroken('%s: no 64-bit division anywhere' % rid)
+
+
+def r_coordinate_split_floors(ck, P, rid='C03-R16'):
+    """Coordinates are signed (a fill may start left of `bits`, a dither offset may be negative).  Splitting one into a word index and a bit
+    offset, or reducing it to a table index, needs floor semantics: x >> 5 with x & 31, y & 63.  C's / and % truncate towards zero: for
+    x = -1 they give word 0, bit -1 where the pixel lives in word -1, bit 31."""
+    R = ck.rule(rid, 'wherever a function splits or reduces a signed coordinate parameter (x, y: int) by a power of two, it uses an arithmetic shift and a mask, never signed division or remainder: x / 32 and x % 32 address the wrong word with a negative bit offset for x < 0 (pixman_fill1 with bits pointing into a wider bitmap), and (y % 64) * 64 + x % 64 is a negative index into the blue-noise table for a negative dither offset', floor=10)
+    n = 0
+    for f in P.functions():
+        coord = {i for i, (nm, ty) in enumerate(f.params) if nm in ('x', 'y') and ty == 'i32'}
+        if not coord:
+            continue
+        for x in f.insts():
+            if x.op not in ('ashr', 'and', 'sdiv', 'srem') or x.a[1][0] != 'c':
+                continue
+            o = f.strip_casts(x.a[0])
+            y = f.v(o) if o[0] == 'v' else None
+            base = o
+            if y is not None and y.op in ('add', 'sub') and any(a[0] == 'c' for a in y.a):
+                base = [a for a in y.a if a[0] != 'c'][0]
+            if base[0] != 'a' or base[1] not in coord:
+                continue
+            k = int(x.a[1][1])
+            if x.op in ('sdiv', 'srem') and not (k > 1 and k & (k - 1) == 0):
+                continue
+            n += 1; ck.saw(f)
+            where = '%s: %s %s %d at %s' % (f.name, f.params[base[1]][0], x.op, k, x.loc())
+            if x.op in ('ashr', 'and'):
+                ck.ok(R, where, 'floor semantics')
+            else:
+                ck.violation(R, f.name, 'coordinate %s %s %d' % (f.params[base[1]][0], '/' if x.op == 'sdiv' else '%', k), '%s reduces its signed coordinate %s with %s %d (%s): for a negative coordinate the quotient is rounded towards zero and the remainder is negative, so the word / table entry addressed is not the one the coordinate names - pixels next to the requested rectangle are written, or a table is read in front of its first entry' % (f.name, f.params[base[1]][0], 'a signed division by' if x.op == 'sdiv' else 'a signed remainder modulo', k, x.loc()), x.loc())
+    if n == 0:
+        raise AnalysisBroken('%s: no coordinate parameter is split anywhere' % rid)
